@@ -130,6 +130,20 @@ func (r *Run) Floor(ok bool, what string) {
 	}
 }
 
+// TooMany tells that enough violations were recorded: remaining cases of the campaign are skipped
+// (each hang-type violation costs a watchdog period).
+func (r *Run) TooMany() bool {
+	r.mu.Lock()
+	defer r.mu.Unlock()
+	n := 0
+	for _, v := range r.viol {
+		if !v.Known {
+			n++
+		}
+	}
+	return n >= 40
+}
+
 func (r *Run) NViolations() int { r.mu.Lock(); defer r.mu.Unlock(); return len(r.viol) }
 
 // NUnknown returns the number of violations not covered by an open known finding.
